@@ -134,6 +134,42 @@ func runHostile(o *opts) {
 			rmrf(p.Base)
 		}
 	}
+	// (a2) a stage file whose artifact BODY carries a `path:` of its own, different from the (harmless)
+	// key it is listed under: whatever dud does with such a file, it does it inside the project
+	for _, body := range []string{"../outer/planted.txt", "../outer/neighbour", "../escape_target.txt", "/tmp/dud_verif_abs_by_body"} {
+		for _, where := range []string{"outputs", "inputs"} {
+			if o.tier == "quick" && r.chance(1, 4) {
+				continue
+			}
+			p, skip := newProj()
+			must(os.WriteFile(filepath.Join(p.Root, "real.bin"), []byte("a committed object"), 0o644))
+			p.writeStage("real.yaml", &StageRec{Out: []Art{{Path: "real.bin"}}})
+			p.dud("", "stage", "add", "real.yaml")
+			p.dud("", "commit", "--copy")
+			cs := ""
+			if w := p.observe(); len(w.Cache) > 0 {
+				cs = w.Cache[0].Digest
+			}
+			y := fmt.Sprintf("command: \"true\"\n%s:\n  safe.txt:\n    path: %q\n    checksum: %s\n", where, body, cs)
+			if where == "inputs" {
+				y += "outputs:\n  out2.txt: {}\n"
+			}
+			must(os.WriteFile(filepath.Join(p.Root, "h.yaml"), []byte(y), 0o644))
+			must(os.WriteFile(filepath.Join(p.Root, "out2.txt"), []byte("o"), 0o644))
+			p.StageFs = append(p.StageFs, "h.yaml")
+			extra := map[string]interface{}{"path_in_body": body, "where": where}
+			t := run(p, skip, Cmd{Kind: "stageadd", Targets: []string{"h.yaml"}}, want(20, 13), "stage add of a stage whose artifact body names another path", extra)
+			if t.OK {
+				for _, c := range []Cmd{{Kind: "checkout"}, {Kind: "checkout", Copy: true}, {Kind: "commit"}, {Kind: "status"}} {
+					run(p, skip, c, want(20, 13), c.Kind+" with an artifact body that names another path", extra)
+				}
+			}
+			s.count("stagefile:path-in-body")
+			distinct["pib"+where+body] = true
+			os.Remove("/tmp/dud_verif_abs_by_body")
+			rmrf(p.Base)
+		}
+	}
 	// (b) hostile manifests
 	type hent struct{ key, path string }
 	hostileEntries := []hent{
